@@ -69,11 +69,13 @@ void ThreadPool::PerThreadData::setThread(std::thread&& t) {
 }
 
 void ThreadPool::PerThreadData::stop() {
+  DISPENSO_VERIF_POINT("TpStop", this);
   running_.store(false, std::memory_order_release);
 }
 
 // Per-thread wait using PoolWakeState's per-thread EpochWaiter.
 uint32_t ThreadPool::waitOnThread(int32_t threadIdx, uint32_t currentEpoch) {
+  DISPENSO_VERIF_POINT("TpWkWaitLoadWake", this);
   auto* ws = detail::consumeLoad(wakeState_);
   assert(ws && "wakeState_ null — threads must not outlive their PoolWakeState");
   if (sleepLengthUs_ > 0) {
@@ -85,6 +87,7 @@ uint32_t ThreadPool::waitOnThread(int32_t threadIdx, uint32_t currentEpoch) {
 }
 
 inline bool ThreadPool::PerThreadData::running() {
+  DISPENSO_VERIF_POINT("TpWkLoadRunning", this);
   return running_.load(std::memory_order_acquire);
 }
 
@@ -126,10 +129,12 @@ ThreadPool::ThreadPool(size_t n, size_t poolLoadMultiplier)
       threads_.back().setThread(std::thread([this, &back = threads_.back(), ringIdx]() {
         threadLoopWake(back, ringIdx);
       }));
+      DISPENSO_VERIF_THREAD_SPAWNED("w", this, ringIdx);
     } else {
       threads_.back().setThread(std::thread([this, &back = threads_.back(), ringIdx]() {
         threadLoopPoll(back, ringIdx);
       }));
+      DISPENSO_VERIF_THREAD_SPAWNED("w", this, ringIdx);
     }
   }
 }
@@ -175,6 +180,7 @@ static_assert(
 
 void ThreadPool::markWorkDone(bool& isWorking) {
   if (!isWorking) {
+    DISPENSO_VERIF_POINT("TpWkDecNotWorking", this);
     numNotWorking_.fetch_sub(1, std::memory_order_relaxed);
     isWorking = true;
   }
@@ -182,6 +188,7 @@ void ThreadPool::markWorkDone(bool& isWorking) {
 
 void ThreadPool::markIdle(bool& isWorking) {
   if (isWorking) {
+    DISPENSO_VERIF_POINT("TpWkIncNotWorking", this);
     numNotWorking_.fetch_add(1, std::memory_order_relaxed);
     isWorking = false;
   }
@@ -189,12 +196,14 @@ void ThreadPool::markIdle(bool& isWorking) {
 
 template <bool kUseWakeSleep>
 void ThreadPool::threadLoopImpl(PerThreadData& data, int32_t ringIndex) {
+  DISPENSO_VERIF_THREAD_BEGIN("w", this, ringIndex);
   moodycamel::ConsumerToken ctoken(work_);
   moodycamel::ProducerToken ptoken(work_);
 
   bool preferRing = false;
 
   detail::PerPoolPerThreadInfo::registerPool(this, &ptoken, ringIndex);
+  DISPENSO_VERIF_POINT("TpWkInit", this);
   auto* ws = detail::consumeLoad(wakeState_);
   assert(ws && "wakeState_ null — threads must not outlive their PoolWakeState");
   uint32_t epoch = ws->waiterFor(ringIndex).current();
@@ -214,6 +223,7 @@ void ThreadPool::threadLoopImpl(PerThreadData& data, int32_t ringIndex) {
         myRing, myStealRing, myStealIdx, ctoken, preferRing, failCount, checkQueue)) {
       ++localWorkDone;
       if (localWorkDone >= kWorkBatchSize) {
+        DISPENSO_VERIF_POINT("TpWkFlushWork", this);
         workRemaining_.fetch_sub(localWorkDone, std::memory_order_relaxed);
         localWorkDone = 0;
       }
@@ -222,6 +232,7 @@ void ThreadPool::threadLoopImpl(PerThreadData& data, int32_t ringIndex) {
     }
     if (localWorkDone > 0) {
       markWorkDone(isWorking);
+      DISPENSO_VERIF_POINT("TpWkFlushWork", this);
       workRemaining_.fetch_sub(localWorkDone, std::memory_order_relaxed);
       failCount = 0;
       continue;
@@ -237,6 +248,7 @@ void ThreadPool::threadLoopImpl(PerThreadData& data, int32_t ringIndex) {
     // Steal ring check (deferred from lean phase).
     {
       OnceFunction stealTask;
+      DISPENSO_VERIF_POINT("TpWkPopSteal2", this);
       if (myStealRing.try_pop(stealTask)) {
         markWorkDone(isWorking);
         executeNext(std::move(stealTask));
@@ -277,7 +289,9 @@ void ThreadPool::threadLoopImpl(PerThreadData& data, int32_t ringIndex) {
       // it. A signalled wake needs no probe -- the producer that signalled also
       // set the hint -- and confining it to timeout wakes, storing only when
       // the queue is genuinely non-empty, keeps it off the busy path.
+      DISPENSO_VERIF_POINT("TpWkSizeApprox", this);
       if (epoch == preWaitEpoch && work_.size_approx() != 0) {
+        DISPENSO_VERIF_POINT("TpSetFlag", this);
         centralQueueNonEmpty_.store(true, std::memory_order_relaxed);
       }
       failCount = 0;
@@ -285,6 +299,7 @@ void ThreadPool::threadLoopImpl(PerThreadData& data, int32_t ringIndex) {
   }
 
   markIdle(isWorking);
+  DISPENSO_VERIF_THREAD_END("w", this);
 }
 
 // Explicit instantiations so the linker finds them.
@@ -311,6 +326,7 @@ void ThreadPool::resizeLocked(ssize_t sn) {
     t.stop();
   }
   {
+    DISPENSO_VERIF_POINT("TpRzLoadWake", this);
     auto* ws = detail::consumeLoad(wakeState_);
     if (ws) {
       ws->wakeAll();
@@ -322,21 +338,27 @@ void ThreadPool::resizeLocked(ssize_t sn) {
   }
 
   for (auto& t : threads_) {
+    DISPENSO_VERIF_BLOCKING_BEGIN("TpRzJoin", this);
     t.thread_.join();
+    DISPENSO_VERIF_BLOCKING_END("TpRzJoined", this);
   }
   threads_.clear();
 
   // Drain all rings in the arena (including shadow entries from prior resize-up)
   for (size_t i = 0; i < rings_.size(); ++i) {
     OnceFunction task;
+    DISPENSO_VERIF_POINT("TpRzDrainRing", this);
     while (rings_[i].try_pop(task)) {
       task();
+      DISPENSO_VERIF_POINT("TpRzDrainRing", this);
     }
   }
   for (size_t i = 0; i < stealRings_.size(); ++i) {
     OnceFunction task;
+    DISPENSO_VERIF_POINT("TpRzDrainSteal", this);
     while (stealRings_[i].try_pop(task)) {
       task();
+      DISPENSO_VERIF_POINT("TpRzDrainSteal", this);
     }
   }
 
@@ -345,14 +367,17 @@ void ThreadPool::resizeLocked(ssize_t sn) {
   // and ConcurrentObjectArena (stable pointers) — safe to race.
   if (n > 0) {
     if (n > rings_.size()) {
+      DISPENSO_VERIF_POINT("TpRzGrowRings", this);
       rings_.grow_by(n - rings_.size());
     }
+    DISPENSO_VERIF_POINT("TpRzStoreNumRings", this);
     numRings_.store(n, std::memory_order_release);
 
     size_t newNumSteal = (n + stealRingSharing_ - 1) / stealRingSharing_;
     if (newNumSteal > stealRings_.size()) {
       stealRings_.grow_by(newNumSteal - stealRings_.size());
     }
+    DISPENSO_VERIF_POINT("TpRzStoreNumSteal", this);
     numStealRings_.store(newNumSteal, std::memory_order_release);
 
     auto newWake = detail::makeAligned<detail::PoolWakeState>(static_cast<int32_t>(n));
@@ -362,14 +387,20 @@ void ThreadPool::resizeLocked(ssize_t sn) {
     // the old wakeState_ pointer (use-after-free). See wakeStateGraveyard_ docs.
     wakeStateGraveyard_.push_back(std::move(newWake));
     DISPENSO_TSAN_ANNOTATE_HAPPENS_BEFORE(&wakeState_);
+    DISPENSO_VERIF_POINT("TpRzStoreWake", this);
     wakeState_.store(rawNewWake, std::memory_order_release);
   } else {
+    DISPENSO_VERIF_POINT("TpRzStoreNumSteal", this);
     numStealRings_.store(0, std::memory_order_release);
+    DISPENSO_VERIF_POINT("TpRzStoreWake", this);
     wakeState_.store(nullptr, std::memory_order_release);
   }
 
+  DISPENSO_VERIF_POINT("TpRzStoreLoadFactor", this);
   poolLoadFactor_.store(static_cast<ssize_t>(n * poolLoadMultiplier_), std::memory_order_relaxed);
+  DISPENSO_VERIF_POINT("TpRzStoreNumThreads", this);
   numThreads_.store(sn, std::memory_order_relaxed);
+  DISPENSO_VERIF_POINT("TpRzStoreNotWorking", this);
   numNotWorking_.store(static_cast<int32_t>(n), std::memory_order_relaxed);
 
   // Start new threads (after counter setup so a thread that immediately finds
@@ -381,10 +412,12 @@ void ThreadPool::resizeLocked(ssize_t sn) {
       threads_.back().setThread(std::thread([this, &back = threads_.back(), ringIdx]() {
         threadLoopWake(back, ringIdx);
       }));
+      DISPENSO_VERIF_THREAD_SPAWNED("w", this, ringIdx);
     } else {
       threads_.back().setThread(std::thread([this, &back = threads_.back(), ringIdx]() {
         threadLoopPoll(back, ringIdx);
       }));
+      DISPENSO_VERIF_THREAD_SPAWNED("w", this, ringIdx);
     }
   }
 
@@ -414,6 +447,7 @@ ThreadPool::~ThreadPool() {
     t.stop();
   }
   {
+    DISPENSO_VERIF_POINT("TpRzLoadWake", this);
     auto* ws = detail::consumeLoad(wakeState_);
     if (ws) {
       ws->wakeAll();
@@ -424,7 +458,9 @@ ThreadPool::~ThreadPool() {
   }
 
   for (auto& t : threads_) {
+    DISPENSO_VERIF_BLOCKING_BEGIN("TpRzJoin", this);
     t.thread_.join();
+    DISPENSO_VERIF_BLOCKING_END("TpRzJoined", this);
   }
   threads_.clear();
 
@@ -435,14 +471,18 @@ ThreadPool::~ThreadPool() {
   // Drain all rings in the arena (including shadow entries)
   for (size_t i = 0; i < rings_.size(); ++i) {
     OnceFunction task;
+    DISPENSO_VERIF_POINT("TpRzDrainRing", this);
     while (rings_[i].try_pop(task)) {
       task();
+      DISPENSO_VERIF_POINT("TpRzDrainRing", this);
     }
   }
   for (size_t i = 0; i < stealRings_.size(); ++i) {
     OnceFunction task;
+    DISPENSO_VERIF_POINT("TpRzDrainSteal", this);
     while (stealRings_[i].try_pop(task)) {
       task();
+      DISPENSO_VERIF_POINT("TpRzDrainSteal", this);
     }
   }
   // wakeState_ graveyard freed by RAII (vector destructor)
